@@ -144,9 +144,9 @@ func c19TreeOps() []TNode {
 		{Path: "out/ff", Kind: "fifo"},
 		{Path: "src/xf", Kind: "link", Target: "../out/ff"},
 		{Path: "out/dir/ff", Kind: "fifo"},
-		{Path: "src/.terraformignore", Kind: "fifo"},                           // the rule file itself is a special file ...
-		{Path: "src/.terraformignore", Kind: "link", Target: "../out/ff"},     // ... or a link to one
-		{Path: "src/.terraformignore", Kind: "dir"},                            // ... or a directory
+		{Path: "src/.terraformignore", Kind: "fifo"},                             // the rule file itself is a special file ...
+		{Path: "src/.terraformignore", Kind: "link", Target: "../out/ff"},        // ... or a link to one
+		{Path: "src/.terraformignore", Kind: "dir"},                              // ... or a directory
 		{Path: "src/.terraformignore", Kind: "link", Target: ".terraformignore"}, // ... or a link to itself
 		{Path: "out/dir/.terraformignore", Kind: "fifo"},
 		{Path: "src/nl\nname", Kind: "file", Body: "n"},
@@ -276,18 +276,22 @@ func RunC19(tier string) int {
 				{Path: "out/ro", Kind: "dir", Mode: 0444}, {Path: "out/ro/f", Kind: "file", Body: "f"}, {Path: "src/xro", Kind: "link", Target: "../out/ro"},
 			}
 			rules := []string{"", "ro/\n", "ro/\n!ro/f\n", "none/\n", "*\n"}
+			// all of them together, and each obstacle alone (the first error ends the walk and hides the others)
+			permSets := [][]TNode{perm, perm[0:2], perm[2:4], perm[4:5], perm[5:7], perm[7:10]}
 			var ujobs []PackArg
 			for _, ig := range []bool{false, true} {
 				for _, de := range []bool{false, true} {
 					for _, rf := range rules {
-						t := append(append([]TNode{}, base...), perm...)
-						if rf != "" {
-							if !ig {
-								continue
+						for _, ps := range permSets {
+							t := append(append([]TNode{}, base...), ps...)
+							if rf != "" {
+								if !ig {
+									continue
+								}
+								t = append(t, TNode{Path: "src/.terraformignore", Kind: "file", Body: rf})
 							}
-							t = append(t, TNode{Path: "src/.terraformignore", Kind: "file", Body: rf})
+							ujobs = append(ujobs, PackArg{Nodes: t, Ignore: ig, Deref: de, NoTrees: true, UID: 65534})
 						}
-						ujobs = append(ujobs, PackArg{Nodes: t, Ignore: ig, Deref: de, NoTrees: true, UID: 65534})
 					}
 				}
 			}
